@@ -39,6 +39,7 @@ Additional constraints for this round (round {R}):
   Do something DIFFERENT from all of them: another function or file, another clause of the statement, another mechanism. Families already used heavily and to be avoided: process-wide caches/memoisation, shared mutable defaults, identity-vs-equality of small ints, dict/list aliasing between copies, weak references.
 - Read the statement and its quantifier word by word and look for a part nobody touched yet. Make sure your change really violates the statement AS WRITTEN (including its stated exclusions / unspecified parts), not a stronger reading of it.
 - Think about what an automated checker derived from the statement would most probably NOT exercise, while the statement still covers it: legal-but-unusual API usage (explicit ids, operating on a non-root node or on a node that was detached and re-attached, mixing the two importers/exporters or the legacy and current codecs, calling an operation twice, calling it on the result of another operation), combinations of two features that are each common alone, values at the far end of a range (very long, very deep, very wide, empty), characters from unusual Unicode classes inside the stated ranges, the order in which a dict or list was filled, an input that is valid for one rule and appears under another.
+- Further inspiration (use at most one, and only if it fits the statement): regex anchors / flags / character classes; str predicates that disagree (isdigit / isdecimal / isnumeric, strip() vs strip(" ")); truthiness tests on values that may be "" or 0; exceptions swallowed or converted by a broad except; mutation of a list or dict while iterating over it; sort stability and key functions; default arguments; off-by-one at the first / last / only element; a fast path that skips work for a "trivial" case that is not trivial; an error message built from user data; a helper shared by two entry points that need slightly different behaviour; a condition that holds for every document in the test data but not in general (all names camelCase ASCII, every id unique, every tree rooted at eml, every node built top-down).
 - `git stash` is shared across worktrees: to run against the unchanged code, save your diff (git diff > {so}/change.patch), `git apply -R` it, run, then `git apply` it again.
 
 Deliver, in {so}/ :
